@@ -8,7 +8,7 @@ import vlib
 from vlib import log
 
 HOME = dict(c1="S", c2="S", c3="r1", c4="r1", c5="r2")
-SPECIAL = ["Wedge", "DupBroadcast", "PoolStop", "PoolStopConnected"]
+SPECIAL = ["Wedge", "DupBroadcast", "PoolStop", "PoolStopConnected", "BadFrame"]
 
 
 def desc(e):
@@ -65,6 +65,11 @@ def special(v, d, drv, seed, modes=SPECIAL, reps=1):
             if e.get("handed") != 1:
                 v.classify(dict(tag="C17-duplicate-broadcast-on-subscribe-race", handed=e.get("handed")),
                            "a collector subscribing while a broadcast task is added is handed the task %s times" % e.get("handed"), rp)
+        elif m == "BadFrame":
+            if not e.get("count_prompt") or e.get("count") != 0 or e.get("connect_after") != "ok" or not e.get("prompt"):
+                v.classify(dict(tag="C17-undecodable-frame-wedges-pool"),
+                           "after one undecodable frame followed by 14 more frames from the same peer: pool.Count() answered=%s (%s collectors), a new relay connects=%s, pool stop prompt=%s" % (
+                               e.get("count_prompt"), e.get("count"), e.get("connect_after"), e.get("prompt")), rp)
         else:
             if not e.get("prompt") or e.get("connect", "ok") != "ok":
                 v.classify(dict(tag="C17-pool-stop-hangs"), "schedule %s: stopping the collector pool did not return within 2 s (connect=%s)" % (m, e.get("connect")), rp)
